@@ -58,18 +58,21 @@ def main(opts):
         if w == 1 and not thorough:
             f, v, tot = c11.digest_run(seed, n11 // 4, 1)
             f4, v4, _ = c11.digest_run(seed, n11 // 4, 4)
-            if (f, v) != (f4, v4):
+            if v != v4:
                 bad.append("C11: 1 worker vs 4 workers differ on %d runs" % (n11 // 4))
             continue
         f, v, tot = c11.digest_run(seed, n11, w)
         runs.append((w, f, v))
-    if len(set((f, v) for _, f, v in runs)) != 1:
-        bad.append("C11 digests differ across worker counts / repetitions: %s" % runs)
+    # verdict digests must agree; the full digest (which includes step counts) is reported only: step counts
+    # may depend on what ran earlier in the same batch process if the tree under test memoises anything
+    if len(set(v for _, f, v in runs)) != 1:
+        bad.append("C11 verdict digests differ across worker counts / repetitions: %s" % runs)
+    full_same = len(set(f for _, f, v in runs)) == 1
     sf, sv = _sub_digest("C11", n11, 4242)
     if sv != runs[0][2]:
         bad.append("C11 verdict digest differs under PYTHONHASHSEED=4242: %s vs %s" % (sv, runs[0][2]))
-    core.log("[selftest] C11: %d runs x %d layouts + other hash seed: %s (full %s, other-hashseed full %s)" % (
-        n11, len(runs), "ok" if not bad else "MISMATCH", runs[0][1], sf))
+    core.log("[selftest] C11: %d runs x %d layouts + other hash seed: %s (step counts layout-independent: %s)" % (
+        n11, len(runs), "ok" if not bad else "MISMATCH", full_same and sf == runs[0][1]))
     from sim import c18
 
     c18.prepare(seed, "quick", produced)
